@@ -5,7 +5,7 @@
 // choice over: at check time it rewrites the one `range m.routes` of FindRoute
 // (in a scratch copy of the CURRENT internal/router/router.go, nothing else is
 // touched) into `range verifC32Range(m)` (inject/internal/router), builds the
-// worker (./worker) against that copy, and lets 16 worker processes run the
+// worker (./worker) against that copy, and lets up to 12 worker processes run the
 // real FindRoute over
 //
 //   - every route table of up to N routes over an alphabet of endpoints and
@@ -33,6 +33,7 @@ import (
 	"sort"
 	"strings"
 	"sync"
+	"syscall"
 
 	"github.com/tucats/ego/internal/cli/settings"
 	"github.com/tucats/ego/internal/commands"
@@ -75,21 +76,23 @@ type violation struct {
 }
 
 type result struct {
-	Evals        int64                 `json:"evals"`
-	Requests     int64                 `json:"requests"`
-	Tables       int64                 `json:"tables"`
-	Probes       int64                 `json:"probes"`
-	Ambiguous    int64                 `json:"ambiguous"`
-	MaxCand      int                   `json:"max_candidates"`
-	Panics       int64                 `json:"panics"`
-	HookCalls    int64                 `json:"hook_calls"`
-	Distinct     []string              `json:"distinct"`
-	Violations   map[string]*violation `json:"violations"`
-	Samples      []json.RawMessage     `json:"samples"`
-	Capped       []string              `json:"capped"`
-	PerFamily    map[string]int64      `json:"per_family"`
-	RealRequests map[string]int64      `json:"real_requests"`
-	Error        string                `json:"error"`
+	Evals          int64                 `json:"evals"`
+	Requests       int64                 `json:"requests"`
+	Tables         int64                 `json:"tables"`
+	Probes         int64                 `json:"probes"`
+	Ambiguous      int64                 `json:"ambiguous"`
+	MaxCand        int                   `json:"max_candidates"`
+	Panics         int64                 `json:"panics"`
+	HookCalls      int64                 `json:"hook_calls"`
+	Distinct       []string              `json:"distinct"`
+	Violations     map[string]*violation `json:"violations"`
+	Samples        []json.RawMessage     `json:"samples"`
+	Capped         []string              `json:"capped"`
+	PerFamily      map[string]int64      `json:"per_family"`
+	RealRequests   map[string]int64      `json:"real_requests"`
+	CappedRequests map[string]int64      `json:"capped_requests"`
+	Error          string                `json:"error"`
+	CPUSeconds     float64               `json:"cpu_s"`
 }
 
 // rewriteRouter returns router.go with every `range <recv>.routes` inside
@@ -205,6 +208,13 @@ func buildWorker(scratch string) string {
 		report.Fatal("building the worker against the rewritten router.go failed: %v\n%s", err, o)
 	}
 
+	if d := os.Getenv("VERIF_C32_DEBUG"); d != "" && d != "1" {
+		_ = os.MkdirAll(d, 0o755)
+		b, _ := os.ReadFile(bin)
+		_ = os.WriteFile(filepath.Join(d, "worker.bin"), b, 0o755)
+		_ = os.WriteFile(filepath.Join(d, "router.go"), out, 0o644)
+	}
+
 	return bin
 }
 
@@ -241,13 +251,15 @@ func main() {
 
 	if !r.Thorough() {
 		fams = []family{{Name: "gen4", Endpoints: quickEndpoints, RouteMethods: []string{"GET", "ANY"}, MaxRoutes: 4,
-			Segments: segs, MaxSegments: 4, ReqMethods: []string{"GET", "POST"}}}
+			Segments: segs, MaxSegments: 3, ReqMethods: []string{"GET", "POST"}}}
 	} else {
 		fams = []family{
-			{Name: "gen5", Endpoints: quickEndpoints, RouteMethods: []string{"GET", "ANY"}, MaxRoutes: 5,
+			{Name: "gen4-long", Endpoints: quickEndpoints, RouteMethods: []string{"GET", "ANY"}, MaxRoutes: 4,
 				Segments: segs, MaxSegments: 4, ReqMethods: []string{"GET", "POST"}},
-			{Name: "wide4", Endpoints: moreEndpoints, RouteMethods: []string{"GET", "POST", "ANY"}, MaxRoutes: 4,
-				Segments: segs, MaxSegments: 4, ReqMethods: []string{"GET", "POST", "get"}},
+			{Name: "gen5", Endpoints: quickEndpoints, RouteMethods: []string{"GET", "ANY"}, MaxRoutes: 5,
+				Segments: segs, MaxSegments: 3, ReqMethods: []string{"GET", "POST"}},
+			{Name: "wide3", Endpoints: moreEndpoints, RouteMethods: []string{"GET", "POST", "ANY"}, MaxRoutes: 3,
+				Segments: segs, MaxSegments: 3, ReqMethods: []string{"GET", "POST", "get"}},
 		}
 	}
 
@@ -263,7 +275,7 @@ func main() {
 	r.Assume(
 		"the iteration order of Router.routes is the only order FindRoute can observe: registration order reaches it only through the map; every order is both registered and iterated in that order",
 		"the one `range m.routes` of FindRoute is rewritten to range over a harness-chosen order (byte splice of the range expression only; checked live by a counter in the worker)",
-		"'matches' (for the fewer-variables half) is decided by the real matcher: the route is returned with 200 when it is the only route of the table",
+		"'matches' (for the fewer-variables half) is decided by the real matcher: the route is returned with 200 when it is the only route of the table; the catch-all endpoint \"/\" takes part in that comparison only for the request path \"/\" (whether 'everything' must beat a pattern is not settled by the statement)",
 		"server table: a route that answers 404 as a single-route table never enters the candidate list (the loop body keeps no state between routes); the worker aborts with a harness error if such a route is ever chosen",
 	)
 
@@ -310,8 +322,8 @@ func main() {
 	}
 
 	shards := runtime.NumCPU()
-	if shards > 16 {
-		shards = 16
+	if shards > 12 {
+		shards = 12
 	}
 
 	cfg.Shards = shards
@@ -337,6 +349,10 @@ func runWorkers(bin, scratch string, cfg config, shards int) []result {
 			cfgPath := filepath.Join(scratch, "c32", fmt.Sprintf("cfg-%d.json", i))
 			outPath := filepath.Join(scratch, "c32", fmt.Sprintf("out-%d.json", i))
 
+			if d := os.Getenv("VERIF_C32_DEBUG"); d != "" && d != "1" && i == 0 {
+				_ = os.WriteFile(filepath.Join(d, "cfg-0.json"), b, 0o644)
+			}
+
 			if err := os.WriteFile(cfgPath, b, 0o644); err != nil {
 				errs[i] = err.Error()
 
@@ -344,7 +360,9 @@ func runWorkers(bin, scratch string, cfg config, shards int) []result {
 			}
 
 			cmd := exec.Command(bin)
-			cmd.Env = append(os.Environ(), "VERIF_C32_CFG="+cfgPath, "VERIF_C32_OUT="+outPath, "GOMAXPROCS=2")
+			// The lookups allocate heavily on a tiny live heap: a lazier GC halves the cost.
+			cmd.Env = append(os.Environ(), "VERIF_C32_CFG="+cfgPath, "VERIF_C32_OUT="+outPath, "GOMAXPROCS=2", "GOGC=800")
+			cmd.SysProcAttr = &syscall.SysProcAttr{Pdeathsig: syscall.SIGKILL} // no strays if the harness is killed
 			cmd.Stderr = os.Stderr
 			runErr := cmd.Run()
 
@@ -385,6 +403,7 @@ func merge(r *report.R, results []result) {
 		total   result
 		per     = map[string]int64{}
 		realReq = map[string]int64{}
+		capped  = map[string]int64{}
 	)
 
 	for _, x := range results {
@@ -395,6 +414,7 @@ func merge(r *report.R, results []result) {
 		total.Ambiguous += x.Ambiguous
 		total.Panics += x.Panics
 		total.HookCalls += x.HookCalls
+		total.CPUSeconds += x.CPUSeconds
 
 		if x.MaxCand > total.MaxCand {
 			total.MaxCand = x.MaxCand
@@ -414,6 +434,10 @@ func merge(r *report.R, results []result) {
 
 		for _, c := range x.Capped {
 			r.Capped(c)
+		}
+
+		for k, v := range x.CappedRequests {
+			capped[k] += v
 		}
 	}
 
@@ -475,6 +499,18 @@ func merge(r *report.R, results []result) {
 	r.Set("max_candidates", total.MaxCand)
 	r.Set("single_route_probes", total.Probes)
 	r.Set("panics_in_FindRoute", total.Panics)
+	r.Set("worker_cpu_s", float64(int(total.CPUSeconds*10))/10)
 	r.Set("per_family", per)
 	r.Set("server_table_requests", realReq)
+
+	names = names[:0]
+	for k := range capped {
+		names = append(names, k)
+	}
+
+	sort.Strings(names)
+
+	for _, k := range names {
+		r.Capped(fmt.Sprintf("%s table: %d of %d requests have more than 7 routes that can become candidates (up to %d); for those, instead of all k! orders, every choice of the first two candidates was run with the others ascending and descending (and the non-candidates before and after)", k, capped[k], realReq[k], total.MaxCand))
+	}
 }
